@@ -1,8 +1,105 @@
 import NetaddrVerif.Model.Proto
-/-! Driver ops of property C19 (stub: filled in by the property's model). -/
-namespace NV.Driver.C19
-open NV NV.Proto
+import NetaddrVerif.Model.Registry
+import NetaddrVerif.Gen.Iana
+/-! Driver ops of property C19.
 
-def handle (_op : String) (_args : List String) : Option String := none
+* `iana_query ver val`                → `[ids];[ids];[ids];[ids]` (IPv4; IPv6; IPv6_unicast; Multicast) over the
+                                         regenerated tables `Gen.iana*`
+* `oui_index h:<hex>` / `iab_index h:<hex>`
+                                       → `[key:offset:size,…]` or `!tag`; the argument is the whole registry file
+* `ieee_lookup oui|iab key [k:o:s,…] [o:s:<hex>,…]`
+                                       → `off/size/ORG/[ADDR,…]` joined by `;` or `!tag`; the second list is what
+                                         `seek(o); read(s)` returns for the rows of that key
+* `rec_parse s:<hex>`                  → `ORG/[ADDR,…]` or `!tag`
+-/
+namespace NV.Driver.C19
+open NV NV.Proto NV.Registry
+
+def mkKey (kind ver x y : Nat) : Option Key :=
+  if kind = 0 then some (.net ⟨ver, x, y⟩)
+  else if kind = 1 then some (.rng ⟨ver, x, y⟩)
+  else if kind = 2 then some (.addr ⟨ver, x⟩)
+  else none
+
+def mkTable (rows : List (Nat × Nat × Nat × Nat)) : List Rec :=
+  (rows.zipIdx).filterMap (fun (r, i) => (mkKey r.1 r.2.1 r.2.2.1 r.2.2.2).map (fun k => ⟨i, k⟩))
+
+/-- the tables regenerated from the imported `IANA_INFO` of /repo -/
+def genTables : Tables :=
+  { ipv4 := mkTable Gen.ianaIPv4, ipv6 := mkTable Gen.ianaIPv6,
+    ipv6u := mkTable Gen.ianaIPv6Unicast, mcast := mkTable Gen.ianaMulticast }
+
+def showIds (l : List Rec) : String := showList (l.map (fun r => toString r.id))
+
+def showInfo (i : Info) : String :=
+  ";".intercalate [showIds i.ipv4, showIds i.ipv6, showIds i.ipv6u, showIds i.mcast]
+
+/-- hex digit value of an ASCII byte (0 for anything else: the harness sends only hex) -/
+def hexVal (b : UInt8) : Nat :=
+  let n := b.toNat
+  if 48 ≤ n && n ≤ 57 then n - 48 else if 97 ≤ n && n ≤ 102 then n - 87 else if 65 ≤ n && n ≤ 70 then n - 55 else 0
+
+/-- `h:<hex>` → bytes, by a loop (registry files are megabytes; no deep recursion) -/
+def bigHex (tok : String) : Option (List Nat) :=
+  if !tok.startsWith "h:" then none else
+  let ba := tok.toUTF8
+  let n := (ba.size - 2) / 2
+  some (Id.run do
+    let mut acc : List Nat := []
+    for j in [0:n] do
+      let i := 2 + 2 * (n - 1 - j)
+      acc := (hexVal ba[i]! * 16 + hexVal ba[i+1]!) :: acc
+    return acc)
+
+def showHexKey (n : Int) : String := toString n
+
+def showIabKey : IabKey → String
+  | .num n => toString n
+  | .raw b => "raw" ++ String.ofList ((b.flatMap (fun x => [hexOfNat (x / 16), hexOfNat (x % 16)])))
+
+def showRows {K : Type} (f : K → String) : R (List (Row K)) → String
+  | .error e => showErr e
+  | .ok rows => showList (rows.map (fun (k, o, s) => s!"{f k}:{o}:{s}"))
+
+def showParsed (p : Parsed) : String :=
+  (match p.org with | none => "-" | some o => showStr o) ++ "/" ++ showList (p.address.map showStr)
+
+def parseIdxRow (tok : String) : Option (Nat × Nat × Nat) :=
+  match tok.splitOn ":" with
+  | [a, b, c] => do pure (← a.toNat?, ← b.toNat?, ← c.toNat?)
+  | _ => none
+
+def parseSlice (tok : String) : Option ((Nat × Nat) × List Char) :=
+  match tok.splitOn ":" with
+  | [a, b, h] => do pure ((← a.toNat?, ← b.toNat?), utf8Decode (← hexBytes h.toList))
+  | _ => none
+
+def handle (op : String) (args : List String) : Option String :=
+  match op, args with
+  | "iana_query", [ver, v] => do
+    pure (showInfo (query genTables ⟨← ver.toNat?, ← v.toNat?⟩))
+  | "oui_index", [h] => do
+    pure (showRows showHexKey (ouiIndex (← bigHex h)))
+  | "iab_index", [h] => do
+    pure (showRows showIabKey (iabIndex (← bigHex h)))
+  | "ieee_lookup", [kind, key, rows, slices] => do
+    let key ← key.toNat?
+    let index ← (← parseList rows).mapM parseIdxRow
+    let sl ← (← parseList slices).mapM parseSlice
+    let read := fun (off size : Nat) => ((sl.find? (fun x => x.1 == (off, size))).map (·.2)).getD []
+    if kind == "oui" then
+      pure (match ouiRecords read index key with
+        | .error e => showErr e
+        | .ok rs => ";".intercalate (rs.map (fun (o, s, p) => s!"{o}/{s}/{showParsed p}")))
+    else if kind == "iab" then
+      pure (match iabRecord read index key with
+        | .error e => showErr e
+        | .ok (o, s, p) => s!"{o}/{s}/{showParsed p}")
+    else none
+  | "rec_parse", [s] => do
+    pure (match parseRecord (← parseStr s) with
+      | .error e => showErr e
+      | .ok p => showParsed p)
+  | _, _ => none
 
 end NV.Driver.C19
